@@ -641,6 +641,6 @@ func CheckC19(c *C19Case, st *Stats) error {
 
 func init() {
 	Register("C19",
-		"user types embedding List / Object one, two and three levels deep, registered with Init. The fluent set is computed from the interface types by reflection (methods whose single result is the interface, minus the deriving operations; methods unknown to the harness are reported as unclassified): 19 on List, 14 on Object. Programs of 1-20 fluent calls with arguments valid for the current content cover every branch (Add with 0/1/2 values, Insert inside/at the end, Delete with 0/1/2 indices, Sort on ints/strings/floats, SetTF leaf replace/append/padding/./#/deep, UnsetTF leaf/nested, Set 0/1/2 pairs, Unset present/missing/none, all ForEach variants incl. ForEachAsync); every call must return the identical registered outer value and Ego() too. Then the derived value is stored through one of 14 entry points (constructors incl. typed slices/maps, Add, Insert, Replace, Set, tree-form writes) and read back through Get, GetList/GetObject, GetTF, Slice, Dict, Values, Pluck, SubList, Concat, Filter*, typed slices, every ForEach/Map callback, IndexOf/Contains/KeyOf: always the identical outer value. Every case is non-trivial (a derived value is exercised); distinct = distinct FNV-64a hash of the case JSON.",
+		"user types embedding List / Object one, two and three levels deep, registered with Init either at every constructor level (the README pattern) or only by the outermost value. The fluent set is computed from the interface types by reflection (methods whose single result is the interface, minus the deriving operations; methods unknown to the harness are reported as unclassified): 19 on List, 14 on Object. Programs of 1-20 fluent calls with arguments valid for the current content cover every branch (Add with 0/1/2 values, Insert inside/at the end, Delete with 0/1/2 indices, Sort on ints/strings/floats, SetTF leaf replace/append/padding/./#/deep, UnsetTF leaf/nested, Set 0/1/2 pairs, Unset present/missing/none, all ForEach variants incl. ForEachAsync); every call must return the identical registered outer value and Ego() too. Then the derived value is stored through one of 14 entry points (constructors incl. typed slices/maps, Add, Insert, Replace, Set, tree-form writes) and read back through Get, GetList/GetObject, GetTF, Slice, Dict, Values, Pluck, SubList, Concat, Filter*, typed slices, every ForEach/Map callback, IndexOf/Contains/KeyOf: always the identical outer value. Every case is non-trivial (a derived value is exercised); distinct = distinct FNV-64a hash of the case JSON.",
 		GenC19, CheckC19)
 }
